@@ -156,7 +156,7 @@ func (x *CommonLex) Error(s string) {
 		return
 	}
 	x.progBldr.parseErr = fmt.Errorf("%s", s)
-	if x.peek != xutils.EOF {
+	if x.peek != xutils.EOF && x.peek != xutils.ERR {
 		x.progBldr.lineAtErr = string(x.peek) + string(x.line)
 	} else {
 		x.progBldr.lineAtErr = string(x.line)
